@@ -55,6 +55,8 @@ type SimS3 struct {
 	ThrottlePutAt        int // n-th Put is answered with the SlowDown error code after the body was read
 	BodyFailAt           int // n-th Get returns a body that errors after BodyFailAfter bytes
 	BodyFailAfter        int
+	BodyFailKind         int // 0: the read returns a transport error; 1: the connection is cut (io.ErrUnexpectedEOF, fewer bytes than Content-Length)
+	ThrottleKind         int // which "try again" answer the service gives (code / HTTP status)
 	puts, gets           int
 	Fired                map[string]int
 	scheduled            bool
@@ -113,11 +115,12 @@ type failingBody struct {
 	data  []byte
 	after int
 	pos   int
+	err   error
 }
 
 func (f *failingBody) Read(p []byte) (int, error) {
 	if f.pos >= f.after {
-		return 0, errInjS3
+		return 0, f.err
 	}
 	n := copy(p, f.data[f.pos:f.after])
 	f.pos += n
@@ -153,9 +156,21 @@ func (s *SimS3) GetObjectWithContext(ctx aws.Context, in *s3.GetObjectInput, opt
 		if after > len(b) {
 			after = len(b)
 		}
-		return &s3.GetObjectOutput{Body: &failingBody{data: b, after: after}}, nil
+		var berr error = errInjS3
+		if s.BodyFailKind%2 == 1 {
+			// what net/http reports when the peer closes before Content-Length bytes arrived
+			berr = fmt.Errorf("%w (connection closed mid-body: %w)", io.ErrUnexpectedEOF, errInjS3)
+			if after >= len(b) && len(b) > 0 {
+				after = len(b) - 1
+			}
+			if len(b) == 0 {
+				berr = errInjS3
+			}
+		}
+		return &s3.GetObjectOutput{Body: &failingBody{data: b, after: after, err: berr}, ContentLength: aws.Int64(int64(len(b)))}, nil
 	}
-	return &s3.GetObjectOutput{Body: io.NopCloser(bytes.NewReader(append([]byte(nil), b...)))}, nil
+	// like the real client, the response carries the object's Content-Length
+	return &s3.GetObjectOutput{Body: io.NopCloser(bytes.NewReader(append([]byte(nil), b...))), ContentLength: aws.Int64(int64(len(b)))}, nil
 }
 
 func (s *SimS3) PutObjectWithContext(ctx aws.Context, in *s3.PutObjectInput, opts ...request.Option) (*s3.PutObjectOutput, error) {
@@ -172,7 +187,12 @@ func (s *SimS3) PutObjectWithContext(ctx aws.Context, in *s3.PutObjectInput, opt
 	if s.ThrottlePutAt != 0 && s.puts == s.ThrottlePutAt {
 		// the request (with its body) was sent; the service answers "slow down"
 		s.Fired["s3-put-throttled"]++
-		return nil, awserr.New("SlowDown", "Please reduce your request rate.", errInjS3)
+		answers := []struct {
+			code   string
+			status int
+		}{{"SlowDown", 503}, {"InternalError", 500}, {"ServiceUnavailable", 503}, {"RequestTimeout", 400}}
+		a := answers[s.ThrottleKind%len(answers)]
+		return nil, awserr.NewRequestFailure(awserr.New(a.code, "Please try again.", errInjS3), a.status, "SIMREQ0001")
 	}
 	if outcome == "fail" || (s.FailPutAt != 0 && s.puts == s.FailPutAt) {
 		s.Fired["s3-put-error"]++
@@ -250,6 +270,15 @@ func GenBackendScenario(seed uint64, tier string) *Scenario {
 	for i := 0; i < n; i++ {
 		name := g.Intn(sc.Cfg.U)
 		op := Op{Key: name, T: g.Intn(sc.Cfg.Disks)}
+		if sc.Extra["clients"] <= 1 && sc.Cfg.KeyD != "mem" && g.Intn(10) == 0 {
+			// somebody else (a clean-up job, a restore from an older backup) removes the object
+			// behind the adapter's back; the same node is written again later
+			sc.Ops = append(sc.Ops, Op{K: "lose", Key: name, T: op.T})
+			if pv, ok := written[name]; ok && g.Intn(2) == 0 {
+				sc.Ops = append(sc.Ops, Op{K: "store", Key: name, T: op.T, Val: pv}, Op{K: "load", Key: name, T: op.T})
+			}
+			continue
+		}
 		if g.Intn(2) == 0 {
 			op.K = "store"
 			if pv, ok := written[name]; ok {
@@ -416,6 +445,17 @@ func (w *World) runBackendSequential(sc *Scenario, insts []*beInstance) {
 		}
 		name := beName(op.Key)
 		switch op.K {
+		case "lose":
+			if dir != "" {
+				os.Remove(filepath.Join(dir, name))
+				w.st.Faults["object-removed-behind-the-adapter"]++
+			} else if s3sim != nil {
+				s3sim.mu.Lock()
+				delete(s3sim.objects, in.bucket+"\x00"+sc.Cfg.ValD+name)
+				s3sim.mu.Unlock()
+				w.st.Faults["object-removed-behind-the-adapter"]++
+			}
+			delete(model, op.Key)
 		case "store":
 			payload := bePayload(op.Val)
 			target := p
@@ -429,6 +469,7 @@ func (w *World) runBackendSequential(sc *Scenario, insts []*beInstance) {
 			case "put-throttle":
 				if s3sim != nil {
 					s3sim.ThrottlePutAt = s3sim.puts + 1
+					s3sim.ThrottleKind = op.Val/6 + op.Key
 					injected = true
 				}
 			case "missing-dir":
@@ -486,6 +527,7 @@ func (w *World) runBackendSequential(sc *Scenario, insts []*beInstance) {
 					if _, ok := model[op.Key]; ok {
 						s3sim.BodyFailAt = s3sim.gets + 1
 						s3sim.BodyFailAfter = op.N
+						s3sim.BodyFailKind = op.N/3 + op.Key
 						injected = true
 					}
 				}
@@ -800,7 +842,7 @@ func init() {
 	extraEngines["backend"] = RunBackendShard
 	extraReplayers["backend"] = RunBackendScenario
 	propTable["C18"] = PropInfo{Engine: "backend", Level: "exploration", QuickS: 12, ThorS: 300,
-		Rule: "one evaluation = one seeded store/load history over one binding (in-memory store, file store on a real scratch directory, S3 adapter over SimS3) with names from the node-name alphabet (1, 43, 64 chars), payloads empty / single NUL / binary with NUL+0xFF / 60 B / 70 KB / text, prefixes and buckets varied, injected back-end errors (S3 Put/Get error, body read error after k bytes, missing directory); half of the S3 histories are run by 2-4 concurrent clients whose S3 calls are parked and released in a chooser-picked order with chooser-picked failures, and the recorded history is checked with porcupine against a write-once register model; non-trivial = at least one call judged; distinct = hash of (binding, prefix, bucket, ops)",
+		Rule: "one evaluation = one seeded store/load history over one binding (in-memory store, file store on a real scratch directory, S3 adapter over SimS3) with names from the node-name alphabet (1, 43, 64 chars), payloads empty / single NUL / binary with NUL+0xFF / 60 B / 70 KB / text, prefixes and buckets varied, injected back-end errors (S3 Put/Get error, throttling answers as RequestFailure after the body was read, body read error or connection cut after k bytes with Content-Length set, missing directory, base path that is a file, object removed behind the adapter and stored again); half of the S3 histories are run by 2-4 concurrent clients whose S3 calls are parked and released in a chooser-picked order with chooser-picked failures, and the recorded history is checked with porcupine against a write-once register model; non-trivial = at least one call judged; distinct = hash of (binding, prefix, bucket, ops)",
 		Assumptions: []string{"write-once register model per (back end, name)", "porcupine v1.3.0 linearizability checker (Unknown is never reported)", "the file binding runs in-process on a real scratch directory (crash and cut-write faults of the file store are C17's subject)"},
 		Components: map[string][]string{
 			"real": {"in_memory_store.go", "persist/file on a real directory", "persist/s3 adapter"},
